@@ -1,8 +1,10 @@
 /* C09 harness: replays a history of public API calls on the real library (ASan/UBSan/LSan, asserts on).
  *
- * stdin: one call per line, arguments symbolic (see tools/props/c09.py for the generator).
+ * stdin: one call per line, arguments symbolic (see tools/props/c09.py for the generator); an optional
+ * first word "@0" / "@1" selects the decoder instance the call is made on (default @0): two decoders may
+ * be alive in one process, each with its own handle tables.
  * stdout, per call:   "> <call>"   flushed BEFORE the call is made (a crash is attributed to it)
- *                     "< <return class> | <state summary>"   after it returned.
+ *                     "< <return class> | <state of instance 0> || <state of instance 1> || <shared objects>"
  * A call that names an empty handle slot (or needs a live decoder when there is none) is not a call
  * with a valid object pointer: it is answered "< skip" and nothing is executed.
  * At end of input everything still held (iterators, user references, decoder references) is released by
@@ -10,6 +12,10 @@
  * the process then exits normally and LeakSanitizer reports anything still allocated.
  *
  * The state summary reads decoder_t/acmod_t/search_module_t fields through the installed headers only.
+ *
+ * -DVF_PASSTHROUGH_POOL: the element pool of listelem_alloc.c (lattice nodes, links, A* paths, FSG links)
+ * is replaced by one malloc per element, so that AddressSanitizer sees a use of a pooled element after it
+ * was returned to its pool (the real pool recycles the memory and hides it).
  */
 #include "common.h"
 #include <soundswallower/acmod.h>
@@ -19,21 +25,90 @@
 #include <soundswallower/configuration.h>
 #include <soundswallower/decoder.h>
 #include <soundswallower/err.h>
+#include <soundswallower/fe.h>
+#include <soundswallower/feat.h>
 #include <soundswallower/fsg_model.h>
 #include <soundswallower/lattice.h>
+#include <soundswallower/logmath.h>
+#include <soundswallower/mllr.h>
 #include <soundswallower/search_module.h>
 #include <soundswallower/state_align_search.h>
 
+#ifdef VF_PASSTHROUGH_POOL
+#include <soundswallower/listelem_alloc.h>
+/* pass-through replacement of src/listelem_alloc.c (these definitions are found first by the linker, the
+ * archive member is not pulled in): one heap block per element, freeing the pool frees what is left */
+typedef struct vf_elem_s { struct vf_elem_s *prev, *next; double pad; } vf_elem_t;
+struct listelem_alloc_s { size_t elemsize; vf_elem_t head; long n_alloc, n_free; };
+listelem_alloc_t *listelem_alloc_init(size_t elemsize)
+{
+    listelem_alloc_t *le = (listelem_alloc_t *)calloc(1, sizeof(*le));
+    le->elemsize = elemsize; le->head.prev = le->head.next = &le->head;
+    return le;
+}
+void listelem_alloc_free(listelem_alloc_t *le)
+{
+    if (!le) return;
+    while (le->head.next != &le->head) { vf_elem_t *e = le->head.next; le->head.next = e->next; free(e); }
+    free(le);
+}
+void *__listelem_malloc__(listelem_alloc_t *le, char *file, int line)
+{
+    /* zeroed like an element of a fresh block of the real pool (ckd_calloc) */
+    vf_elem_t *e = (vf_elem_t *)calloc(1, sizeof(vf_elem_t) + le->elemsize);
+    (void)file; (void)line;
+    e->next = le->head.next; e->prev = &le->head; le->head.next->prev = e; le->head.next = e;
+    le->n_alloc++;
+    return (void *)(e + 1);
+}
+void *__listelem_malloc_id__(listelem_alloc_t *le, char *file, int line, int32 *out_id)
+{
+    if (out_id) *out_id = -1;
+    return __listelem_malloc__(le, file, line);
+}
+void *listelem_get_item(listelem_alloc_t *le, int32 id) { (void)le; (void)id; return NULL; }
+void __listelem_free__(listelem_alloc_t *le, void *elem, char *file, int line)
+{
+    vf_elem_t *e = ((vf_elem_t *)elem) - 1;
+    (void)file; (void)line;
+    e->prev->next = e->next; e->next->prev = e->prev;
+    le->n_free++;
+    free(e);
+}
+void listelem_stats(listelem_alloc_t *le) { (void)le; }
+#endif
+
 #define NSLOT 6
-static decoder_t *D;          /* the decoder (NULL = no live reference held by the history) */
-static int Drefs;             /* references the history holds on D */
-static seg_iter_t *SEG[NSLOT];
-static hyp_iter_t *HYP[NSLOT];
-static alignment_iter_t *ALI[NSLOT];
-static lattice_t *LAT[NSLOT];   /* user references taken with lattice_retain */
-static alignment_t *ALN[NSLOT]; /* user references taken with alignment_retain */
+typedef struct {
+    decoder_t *dec;        /* the decoder (NULL = no live reference held by the history) */
+    int refs;              /* references the history holds on the decoder */
+    seg_iter_t *seg[NSLOT];
+    hyp_iter_t *hyp[NSLOT];
+    alignment_iter_t *ali[NSLOT];
+    lattice_t *lat[NSLOT];   /* user references taken with lattice_retain */
+    alignment_t *aln[NSLOT]; /* user references taken with alignment_retain */
+    latnode_iter_t *ln[NSLOT]; lattice_t *lndag[NSLOT]; /* node iterators (pointers into a lattice) */
+    latlink_iter_t *ll[NSLOT]; lattice_t *lldag[NSLOT]; /* link iterators */
+} inst_t;
+static inst_t I[2], *C = &I[0];
+#define D (C->dec)
+#define Drefs (C->refs)
+#define SEG (C->seg)
+#define HYP (C->hyp)
+#define ALI (C->ali)
+#define LAT (C->lat)
+#define ALN (C->aln)
+#define LN (C->ln)
+#define LL (C->ll)
+/* objects shared between the instances: references the history holds on sub-objects */
+static config_t *CFG[NSLOT];
+static logmath_t *LM[NSLOT];
+static fe_t *FE[NSLOT];
+static feat_t *FT[NSLOT];
+static mllr_t *ML[NSLOT];
 static const char *REPO = "/repo";
-static char pathbuf[4][1024];
+static const char *SCRATCH = "/tmp";
+static char pathbuf[5][1024];
 
 static int16 *goraw; static size_t gon;
 
@@ -84,6 +159,7 @@ static const char *jsgf_text(const char *k)
     if (!strcmp(k, "nullonly")) return "#JSGF V1.0; grammar g; public <s> = <NULL>;";
     if (!strcmp(k, "grp")) return "#JSGF V1.0; grammar g; public <s> = (go | stop) [forward] /2/ ten {tag} | /0.5/ hello;";
     if (!strcmp(k, "long")) return "#JSGF V1.0; grammar g; public <s> = go forward ten meters go forward ten meters go forward ten meters;";
+    if (!strcmp(k, "wide")) return "#JSGF V1.0; grammar g; public <s> = (go | stop | hello | forward | backward | ten | two | one | meter | meters | left | right)+;";
     if (!strcmp(k, "empty")) return "";
     if (!strcmp(k, "syntax")) return "#JSGF V1.0; grammar g; public <s> = go forward";
     if (!strcmp(k, "garbage")) return "\x01\xff this is not a grammar ((((";
@@ -139,20 +215,26 @@ static const char *cmn_text(const char *k)
     return "0";
 }
 
+static void config_args(config_t *c, int argc, char **argv)
+{
+    int i;
+    for (i = 0; i + 1 < argc; i += 2) {
+        if (!strcmp(argv[i], "dict")) config_set_str(c, "dict", repo_path(3, argv[i + 1]));
+        else if (!strcmp(argv[i], "logfn")) { snprintf(pathbuf[4], sizeof(pathbuf[4]), "%s/%s", SCRATCH, argv[i + 1]); config_set_str(c, "logfn", pathbuf[4]); }
+        else config_set_str(c, argv[i], argv[i + 1]);
+    }
+}
+
 static config_t *make_config(const char *gram, int argc, char **argv)
 {
     config_t *c = config_init(NULL);
-    int i;
     config_set_str(c, "loglevel", "FATAL");
     config_set_str(c, "hmm", repo_path(1, !strcmp(gram, "badhmm") ? "model/nonexistent" : "model/en-us"));
     if (!strcmp(gram, "jsgf")) config_set_str(c, "jsgf", repo_path(2, "tests/data/goforward.gram"));
     else if (!strcmp(gram, "fsg")) config_set_str(c, "fsg", repo_path(2, "tests/data/goforward.fsg"));
     else if (!strcmp(gram, "nojsgf")) config_set_str(c, "jsgf", repo_path(2, "tests/data/nonexistent.gram"));
     else if (!strcmp(gram, "nofsg")) config_set_str(c, "fsg", repo_path(2, "tests/data/nonexistent.fsg"));
-    for (i = 0; i + 1 < argc; i += 2) {
-        if (!strcmp(argv[i], "dict")) config_set_str(c, "dict", repo_path(3, argv[i + 1]));
-        else config_set_str(c, argv[i], argv[i + 1]);
-    }
+    config_args(c, argc, argv);
     return c;
 }
 
@@ -164,18 +246,28 @@ static int al_reuse(void)
 
 static int count(void **a) { int i, n = 0; for (i = 0; i < NSLOT; i++) n += a[i] != NULL; return n; }
 
+static void inst_state(inst_t *x)
+{
+    if (x->dec) {
+        int st = x->dec->acmod ? (int)x->dec->acmod->state : -1;
+        printf("D=%d u=%c s=%d a=%d j=%d g=%d", x->dec->refcount,
+               st == ACMOD_IDLE ? 'i' : (st == ACMOD_ENDED ? 'e' : (st < 0 ? '?' : 's')),
+               x->dec->search != NULL, x->dec->align != NULL, x->dec->json_result != NULL,
+               x->dec->search && x->dec->search->dag != NULL);
+    } else
+        printf("D=0");
+    printf(" it=%d,%d,%d lr=%d ar=%d ln=%d,%d", count((void **)x->seg), count((void **)x->hyp), count((void **)x->ali),
+           count((void **)x->lat), count((void **)x->aln), count((void **)x->ln), count((void **)x->ll));
+}
+
 static void state(void)
 {
-    if (D) {
-        int st = D->acmod ? D->acmod->state : -1;
-        printf(" | D=%d u=%c s=%d a=%d j=%d g=%d", D->refcount,
-               st == ACMOD_IDLE ? 'i' : (st == ACMOD_ENDED ? 'e' : (st < 0 ? '?' : 's')),
-               D->search != NULL, D->align != NULL, D->json_result != NULL,
-               D->search && D->search->dag != NULL);
-    } else
-        printf(" | D=0");
-    printf(" it=%d,%d,%d lr=%d ar=%d\n", count((void **)SEG), count((void **)HYP), count((void **)ALI),
-           count((void **)LAT), count((void **)ALN));
+    printf(" | ");
+    inst_state(&I[0]);
+    printf(" || ");
+    inst_state(&I[1]);
+    printf(" || cf=%d lm=%d fe=%d ft=%d ml=%d\n", count((void **)CFG), count((void **)LM), count((void **)FE),
+           count((void **)FT), count((void **)ML));
     fflush(stdout);
 }
 
@@ -194,57 +286,133 @@ static void touch_ali(alignment_iter_t *it)
     volatile size_t n = w ? strlen(w) : 0; (void)n;
     alignment_iter_seg(it, &st, &du); alignment_iter_seg(it, NULL, NULL);
 }
+static void touch_link(lattice_t *dag, latlink_t *lk)
+{
+    int16 sf; latnode_t *src; int32 as;
+    const char *w, *bw; volatile size_t n;
+    latlink_times(lk, &sf); ps_latlink_nodes(lk, &src); ps_latlink_nodes(lk, NULL);
+    w = ps_latlink_word(dag, lk); bw = ps_latlink_baseword(dag, lk);
+    n = (w ? strlen(w) : 0) + (bw ? strlen(bw) : 0); (void)n;
+    ps_latlink_pred(lk); ps_latlink_prob(dag, lk, &as); ps_latlink_prob(dag, lk, NULL);
+}
+static void touch_node(lattice_t *dag, latnode_t *nd)
+{
+    int16 fef, lef; latlink_t *bl;
+    const char *w = ps_latnode_word(dag, nd), *bw = ps_latnode_baseword(dag, nd);
+    volatile size_t n = (w ? strlen(w) : 0) + (bw ? strlen(bw) : 0); (void)n;
+    latnode_times(nd, &fef, &lef); latnode_times(nd, NULL, NULL);
+    ps_latnode_prob(dag, nd, &bl); ps_latnode_prob(dag, nd, NULL);
+}
 static void touch_lat(lattice_t *dag)
 {
     latnode_iter_t *ni; int nn = 0;
     (void)lattice_n_frames(dag); (void)lattice_get_logmath(dag);
     for (ni = ps_latnode_iter(dag); ni; ni = ps_latnode_iter_next(ni)) {
         latnode_t *nd = ps_latnode_iter_node(ni);
-        latlink_iter_t *li; int16 fef, lef; latlink_t *bl;
-        const char *w = ps_latnode_word(dag, nd), *bw = ps_latnode_baseword(dag, nd);
-        volatile size_t n = (w ? strlen(w) : 0) + (bw ? strlen(bw) : 0); (void)n;
-        latnode_times(nd, &fef, &lef); ps_latnode_prob(dag, nd, &bl);
-        for (li = ps_latnode_exits(nd); li; li = ps_latlink_iter_next(li)) {
-            latlink_t *lk = ps_latlink_iter_link(li); int16 sf; latnode_t *src; int32 as;
-            latlink_times(lk, &sf); ps_latlink_nodes(lk, &src);
-            w = ps_latlink_word(dag, lk); bw = ps_latlink_baseword(dag, lk);
-            n = (w ? strlen(w) : 0) + (bw ? strlen(bw) : 0);
-            ps_latlink_pred(lk); ps_latlink_prob(dag, lk, &as);
-        }
+        latlink_iter_t *li;
+        touch_node(dag, nd);
+        for (li = ps_latnode_exits(nd); li; li = ps_latlink_iter_next(li)) touch_link(dag, ps_latlink_iter_link(li));
         for (li = ps_latnode_entries(nd); li; li = ps_latlink_iter_next(li)) (void)ps_latlink_iter_link(li);
         if (++nn > 100000) break;
     }
 }
 
+/* the lattice an op works on: source -1 = the decoder's current lattice (decoder_lattice), k = a retained one */
+static lattice_t *lat_of(int src)
+{
+    if (src < 0) return D ? decoder_lattice(D) : NULL;
+    return src < NSLOT ? LAT[src] : NULL;
+}
+
 #define RET(...) do { fputs("< ", stdout); printf(__VA_ARGS__); state(); } while (0)
 #define NEED_D if (!D) { RET("skip"); continue; }
+#define SLOT_OK(k) ((k) >= 0 && (k) < NSLOT)
 
 static void do_line(char *line);
+
+static void use_config(config_t *c, const char *key)
+{
+    const char *js;
+    volatile size_t l;
+    (void)config_typeof(c, key); (void)config_int(c, key); (void)config_float(c, key);
+    (void)config_str(c, key); (void)config_bool(c, key); (void)config_get(c, key);
+    js = config_serialize_json(c); l = js ? strlen(js) : 0; (void)l;
+}
+
+/* config_* call `w[0..n)` = <setter|get|unset|json|same|typeof> key [value] on configuration c */
+static const void *config_call(config_t *c, char **w, int n)
+{
+    const void *r = NULL;
+    if (!strcmp(w[0], "str") && n >= 3) {
+        const char *v = w[2];
+        if (!strcmp(v, "NULL")) v = NULL;
+        else if (!strcmp(v, "EMPTY")) v = "";
+        else if (!strncmp(v, "@", 1)) v = repo_path(2, v + 1);
+        r = config_set_str(c, w[1], v);
+    } else if (!strcmp(w[0], "int") && n >= 3) r = config_set_int(c, w[1], atol(w[2]));
+    else if (!strcmp(w[0], "float") && n >= 3) r = config_set_float(c, w[1], atof(w[2]));
+    else if (!strcmp(w[0], "bool") && n >= 3) r = config_set_bool(c, w[1], atoi(w[2]));
+    else if (!strcmp(w[0], "unset") && n >= 2) r = config_unset(c, w[1]);
+    else if (!strcmp(w[0], "setnull") && n >= 2) r = config_set(c, w[1], NULL, 0);
+    else if (!strcmp(w[0], "same") && n >= 2) {
+        /* set the parameter to the value it has, through the setter of its own type */
+        int t = config_typeof(c, w[1]);
+        if (t & ARG_STRING) { const char *v = config_str(c, w[1]); char *cp = v ? ckd_salloc(v) : NULL; r = config_set_str(c, w[1], cp); ckd_free(cp); }
+        else if (t & ARG_INTEGER) r = config_set_int(c, w[1], config_int(c, w[1]));
+        else if (t & ARG_BOOLEAN) r = config_set_bool(c, w[1], config_bool(c, w[1]));
+        else if (t & ARG_FLOATING) r = config_set_float(c, w[1], config_float(c, w[1]));
+    } else if (!strcmp(w[0], "get") && n >= 2) {
+        (void)config_typeof(c, w[1]); (void)config_int(c, w[1]); (void)config_float(c, w[1]);
+        (void)config_str(c, w[1]); (void)config_bool(c, w[1]);
+        r = config_get(c, w[1]);
+    } else if (!strcmp(w[0], "typeof") && n >= 2) {
+        r = config_typeof(c, w[1]) ? (const void *)c : NULL;
+    } else if (!strcmp(w[0], "json")) {
+        const char *js = config_serialize_json(c);
+        volatile size_t l = js ? strlen(js) : 0; (void)l;
+        r = js;
+    } else if (!strcmp(w[0], "parse") && n >= 2) {
+        /* config_parse_json on the existing configuration */
+        const char *js = !strcmp(w[1], "ok") ? "{\"beam\": 1e-40, \"compallsen\": true}"
+            : (!strcmp(w[1], "unknown") ? "{\"nosuchkey\": 3}" : (!strcmp(w[1], "empty") ? "" : "{\"beam\": "));
+        r = config_parse_json(c, js);
+    }
+    return r;
+}
 
 int main(int argc, char **argv)
 {
     static char line[4096], copy[4096];
-    int i;
+    int i, ins;
     if (getenv("SS_REPO")) REPO = getenv("SS_REPO");
+    if (getenv("SS_SCRATCH")) SCRATCH = getenv("SS_SCRATCH");
     (void)argc; (void)argv;
     err_set_loglevel(ERR_FATAL);
     load_audio();
     while (fgets(line, sizeof(line), stdin)) {
-        char *w[16];
+        char *wbuf[18], **w = wbuf;
         int n;
         size_t L = strlen(line);
         while (L && (line[L - 1] == '\n' || line[L - 1] == '\r')) line[--L] = 0;
         if (!L) continue;
         strcpy(copy, line);
-        n = vf_words(copy, w, 16);
+        n = vf_words(copy, w, 18);
         if (!n) continue;
         printf("> %s\n", line); fflush(stdout);
+        C = &I[0];
+        if (w[0][0] == '@') { C = &I[w[0][1] == '1' ? 1 : 0]; w++; n--; if (!n) { RET("bad-op"); continue; } }
 
         if (!strcmp(w[0], "init") && n >= 2) {
             config_t *c; decoder_t *d;
             if (D) { RET("skip"); continue; }
             c = !strcmp(w[1], "null") ? NULL : make_config(w[1], n - 2, w + 2);
             d = decoder_init(c); /* consumes c, also on failure */
+            if (d) { D = d; Drefs = 1; RET("ptr"); } else RET("null");
+        } else if (!strcmp(w[0], "initcfg") && n >= 2) {
+            /* decoder_init with a configuration the history holds a reference on: the reference is consumed */
+            int k = atoi(w[1]); decoder_t *d;
+            if (D || !SLOT_OK(k) || !CFG[k]) { RET("skip"); continue; }
+            d = decoder_init(CFG[k]); CFG[k] = NULL;
             if (d) { D = d; Drefs = 1; RET("ptr"); } else RET("null");
         } else if (!strcmp(w[0], "reinit") && n >= 2) {
             int r;
@@ -253,6 +421,17 @@ int main(int argc, char **argv)
             else if (!strcmp(w[1], "same")) r = decoder_reinit(D, decoder_config(D));
             else r = decoder_reinit(D, make_config(w[1], n - 2, w + 2));
             RET(r == 0 ? "ok" : "err");
+        } else if (!strcmp(w[0], "reinitcfg") && n >= 2) {
+            /* decoder_reinit with a held configuration: consumed unless it is the decoder's own */
+            int k = atoi(w[1]), r, own;
+            NEED_D;
+            if (!SLOT_OK(k) || !CFG[k]) { RET("skip"); continue; }
+            own = CFG[k] == decoder_config(D);
+            r = decoder_reinit(D, CFG[k]);
+            if (!own) CFG[k] = NULL;
+            RET(r == 0 ? "ok own=%d" : "err own=%d", own);
+        } else if (!strcmp(w[0], "reinitfeat")) {
+            int r; NEED_D; r = decoder_reinit_feat(D, NULL); RET(r == 0 ? "ok" : "err");
         } else if (!strcmp(w[0], "retain")) {
             NEED_D;
             decoder_retain(D); Drefs++; RET("ptr");
@@ -267,31 +446,92 @@ int main(int argc, char **argv)
             decoder_t *p = decoder_retain(NULL);
             lattice_free(NULL); lattice_retain(NULL); alignment_free(NULL); alignment_retain(NULL);
             alignment_iter_next(NULL); alignment_iter_children(NULL); config_free(NULL);
+            mllr_free(NULL); mllr_retain(NULL); alignment_iter_name(NULL); alignment_iter_seg(NULL, NULL, NULL);
+            alignment_iter_goto(NULL, 0); ps_latnode_iter_free(NULL); ps_latlink_iter_free(NULL);
             RET(r == 0 && p == NULL ? "ok" : "err");
-        } else if (!strcmp(w[0], "cfg") && n >= 3) {
-            config_t *c; const void *r = NULL;
+        } else if (!strcmp(w[0], "cfg") && n >= 2) {
+            const void *r;
             NEED_D;
-            c = decoder_config(D);
-            if (!strcmp(w[1], "str") && n >= 4) {
-                const char *v = w[3];
-                if (!strcmp(v, "NULL")) v = NULL;
-                else if (!strcmp(v, "EMPTY")) v = "";
-                else if (!strncmp(v, "@", 1)) v = repo_path(2, v + 1);
-                r = config_set_str(c, w[2], v);
-            } else if (!strcmp(w[1], "int") && n >= 4) r = config_set_int(c, w[2], atol(w[3]));
-            else if (!strcmp(w[1], "float") && n >= 4) r = config_set_float(c, w[2], atof(w[3]));
-            else if (!strcmp(w[1], "bool") && n >= 4) r = config_set_bool(c, w[2], atoi(w[3]));
-            else if (!strcmp(w[1], "unset")) r = config_unset(c, w[2]);
-            else if (!strcmp(w[1], "get")) {
-                (void)config_typeof(c, w[2]); (void)config_int(c, w[2]); (void)config_float(c, w[2]);
-                (void)config_str(c, w[2]); (void)config_bool(c, w[2]);
-                r = config_get(c, w[2]);
-            } else if (!strcmp(w[1], "json")) {
-                const char *js = config_serialize_json(c);
-                volatile size_t l = js ? strlen(js) : 0; (void)l;
-                r = js;
+            r = config_call(decoder_config(D), w + 1, n - 1);
+            RET(r ? "ptr" : "null");
+        } else if (!strcmp(w[0], "cfgk") && n >= 3) {
+            /* the same calls on a configuration the history holds a reference on */
+            int k = atoi(w[1]); const void *r;
+            if (!SLOT_OK(k) || !CFG[k]) { RET("skip"); continue; }
+            r = config_call(CFG[k], w + 2, n - 2);
+            RET(r ? "ptr" : "null");
+        } else if (!strcmp(w[0], "subretain") && n >= 3) {
+            /* subretain cfg|lmath|fe|feat <slot>: retain the decoder's sub-object */
+            int k = atoi(w[2]);
+            NEED_D;
+            if (!SLOT_OK(k)) { RET("skip"); continue; }
+            if (!strcmp(w[1], "cfg") && !CFG[k]) { CFG[k] = config_retain(decoder_config(D)); RET(CFG[k] ? "ptr" : "null"); }
+            else if (!strcmp(w[1], "lmath") && !LM[k]) { LM[k] = logmath_retain(decoder_logmath(D)); RET(LM[k] ? "ptr" : "null"); }
+            else if (!strcmp(w[1], "fe") && !FE[k]) { FE[k] = fe_retain(decoder_fe(D)); RET(FE[k] ? "ptr" : "null"); }
+            else if (!strcmp(w[1], "feat") && !FT[k]) { FT[k] = feat_retain(decoder_feat(D)); RET(FT[k] ? "ptr" : "null"); }
+            else RET("skip");
+        } else if (!strcmp(w[0], "cfgnew") && n >= 3) {
+            /* cfgnew <slot> <grammar kind> [args]: a configuration created by the user */
+            int k = atoi(w[1]);
+            if (!SLOT_OK(k) || CFG[k]) { RET("skip"); continue; }
+            CFG[k] = make_config(w[2], n - 3, w + 3);
+            RET("ptr");
+        } else if (!strcmp(w[0], "cfgretain") && n >= 2) {
+            /* a second reference on a held configuration, in another slot */
+            int k = atoi(w[1]), j = n > 2 ? atoi(w[2]) : -1;
+            if (!SLOT_OK(k) || !CFG[k] || !SLOT_OK(j) || CFG[j]) { RET("skip"); continue; }
+            CFG[j] = config_retain(CFG[k]); RET("ptr");
+        } else if (!strcmp(w[0], "subuse") && n >= 3) {
+            int k = atoi(w[2]);
+            if (!SLOT_OK(k)) { RET("skip"); continue; }
+            if (!strcmp(w[1], "cfg") && CFG[k]) { use_config(CFG[k], "hmm"); use_config(CFG[k], "beam"); use_config(CFG[k], "nosuchkey"); RET("void"); }
+            else if (!strcmp(w[1], "lmath") && LM[k]) {
+                volatile double x = logmath_exp(LM[k], logmath_log(LM[k], 0.25)) + logmath_get_base(LM[k]);
+                (void)x; (void)logmath_add(LM[k], -100, -200); (void)logmath_get_zero(LM[k]); RET("void");
+            } else if (!strcmp(w[1], "fe") && FE[k]) { int a, b2; (void)fe_get_output_size(FE[k]); fe_get_input_size(FE[k], &a, &b2); RET("void"); }
+            else if (!strcmp(w[1], "feat") && FT[k]) { volatile int x = feat_dimension(FT[k]) + feat_window_size(FT[k]); (void)x; RET("void"); }
+            else RET("skip");
+        } else if (!strcmp(w[0], "subfree") && n >= 3) {
+            int k = atoi(w[2]);
+            if (!SLOT_OK(k)) { RET("skip"); continue; }
+            if (!strcmp(w[1], "cfg") && CFG[k]) { config_free(CFG[k]); CFG[k] = NULL; RET("void"); }
+            else if (!strcmp(w[1], "lmath") && LM[k]) { logmath_free(LM[k]); LM[k] = NULL; RET("void"); }
+            else if (!strcmp(w[1], "fe") && FE[k]) { fe_free(FE[k]); FE[k] = NULL; RET("void"); }
+            else if (!strcmp(w[1], "feat") && FT[k]) { feat_free(FT[k]); FT[k] = NULL; RET("void"); }
+            else RET("skip");
+        } else if (!strcmp(w[0], "logfile") && n >= 2) {
+            int r; const char *p2 = NULL;
+            NEED_D;
+            if (!strcmp(w[1], "bad")) p2 = "/nonexistent-directory/c09.log";
+            else if (strcmp(w[1], "null")) { snprintf(pathbuf[4], sizeof(pathbuf[4]), "%s/%s", SCRATCH, w[1]); p2 = pathbuf[4]; }
+            r = decoder_set_logfile(D, p2);
+            RET(r == 0 ? "ok" : "err");
+        } else if (!strcmp(w[0], "mllrread") && n >= 3) {
+            /* mllrread <slot> id|missing|short|bad */
+            int k = atoi(w[1]);
+            if (!SLOT_OK(k) || ML[k]) { RET("skip"); continue; }
+            if (!strcmp(w[2], "missing")) snprintf(pathbuf[4], sizeof(pathbuf[4]), "%s/nonexistent.mllr", SCRATCH);
+            else snprintf(pathbuf[4], sizeof(pathbuf[4]), "%s/mllr-%s.txt", SCRATCH, w[2]);
+            ML[k] = mllr_read(pathbuf[4]);
+            RET(ML[k] ? "ptr" : "null");
+        } else if (!strcmp(w[0], "mllrapply") && n >= 2) {
+            /* mllrapply <slot> [keep] | null : decoder_apply_mllr consumes the transform ("The decoder consumes this
+             * pointer, so you should call mllr_retain() on it if you wish to reuse it elsewhere"); with `keep` the
+             * history retains it first and keeps its slot */
+            mllr_t *r;
+            NEED_D;
+            if (!strcmp(w[1], "null")) r = decoder_apply_mllr(D, NULL);
+            else {
+                int k = atoi(w[1]);
+                if (!SLOT_OK(k) || !ML[k]) { RET("skip"); continue; }
+                if (n > 2 && !strcmp(w[2], "keep")) { mllr_retain(ML[k]); r = decoder_apply_mllr(D, ML[k]); }
+                else { r = decoder_apply_mllr(D, ML[k]); ML[k] = NULL; }
             }
             RET(r ? "ptr" : "null");
+        } else if (!strcmp(w[0], "mllrfree") && n >= 2) {
+            int k = atoi(w[1]);
+            if (!SLOT_OK(k) || !ML[k]) { RET("skip"); continue; }
+            mllr_free(ML[k]); ML[k] = NULL; RET("void");
         } else if (!strcmp(w[0], "start")) {
             int r; NEED_D; r = decoder_start_utt(D); RET(r == 0 ? "ok" : "err");
         } else if (!strcmp(w[0], "end")) {
@@ -327,39 +567,39 @@ int main(int argc, char **argv)
         } else if (!strcmp(w[0], "seg") && n >= 2) {
             int k = atoi(w[1]);
             NEED_D;
-            if (k < 0 || k >= NSLOT || SEG[k]) { RET("skip"); continue; }
+            if (!SLOT_OK(k) || SEG[k]) { RET("skip"); continue; }
             SEG[k] = decoder_seg_iter(D);
             if (SEG[k]) { touch_seg(SEG[k]); RET("ptr"); } else RET("null");
         } else if (!strcmp(w[0], "segnext") && n >= 2) {
             int k = atoi(w[1]);
-            if (k < 0 || k >= NSLOT || !SEG[k]) { RET("skip"); continue; }
+            if (!SLOT_OK(k) || !SEG[k]) { RET("skip"); continue; }
             SEG[k] = seg_iter_next(SEG[k]);
             if (SEG[k]) { touch_seg(SEG[k]); RET("ptr"); } else RET("null");
         } else if (!strcmp(w[0], "segfree") && n >= 2) {
             int k = atoi(w[1]);
-            if (k < 0 || k >= NSLOT || !SEG[k]) { RET("skip"); continue; }
+            if (!SLOT_OK(k) || !SEG[k]) { RET("skip"); continue; }
             seg_iter_free(SEG[k]); SEG[k] = NULL; RET("void");
         } else if (!strcmp(w[0], "nbest") && n >= 2) {
             int k = atoi(w[1]);
             NEED_D;
-            if (k < 0 || k >= NSLOT || HYP[k]) { RET("skip"); continue; }
+            if (!SLOT_OK(k) || HYP[k]) { RET("skip"); continue; }
             HYP[k] = decoder_nbest(D);
             if (HYP[k]) { int32 sc; const char *h = hyp_iter_hyp(HYP[k], &sc); volatile size_t l = h ? strlen(h) : 0; (void)l; RET("ptr"); }
             else RET("null");
         } else if (!strcmp(w[0], "hypnext") && n >= 2) {
             int k = atoi(w[1]);
-            if (k < 0 || k >= NSLOT || !HYP[k]) { RET("skip"); continue; }
+            if (!SLOT_OK(k) || !HYP[k]) { RET("skip"); continue; }
             HYP[k] = hyp_iter_next(HYP[k]);
             if (HYP[k]) { const char *h = hyp_iter_hyp(HYP[k], NULL); volatile size_t l = h ? strlen(h) : 0; (void)l; RET("ptr"); }
             else RET("null");
         } else if (!strcmp(w[0], "hypfree") && n >= 2) {
             int k = atoi(w[1]);
-            if (k < 0 || k >= NSLOT || !HYP[k]) { RET("skip"); continue; }
+            if (!SLOT_OK(k) || !HYP[k]) { RET("skip"); continue; }
             hyp_iter_free(HYP[k]); HYP[k] = NULL; RET("void");
         } else if (!strcmp(w[0], "hypseg") && n >= 3) {
             /* hypseg <destination seg slot> <hyp slot> */
             int j = atoi(w[1]), k = atoi(w[2]);
-            if (k < 0 || k >= NSLOT || !HYP[k] || j < 0 || j >= NSLOT || SEG[j]) { RET("skip"); continue; }
+            if (!SLOT_OK(k) || !HYP[k] || !SLOT_OK(j) || SEG[j]) { RET("skip"); continue; }
             SEG[j] = hyp_iter_seg(HYP[k]);
             if (SEG[j]) { touch_seg(SEG[j]); RET("ptr"); } else RET("null");
         } else if (!strcmp(w[0], "lattice")) {
@@ -367,10 +607,11 @@ int main(int argc, char **argv)
             if (l) touch_lat(l);
             RET(l ? "ptr" : "null");
         } else if (!strcmp(w[0], "latbest")) {
-            /* lattice_bestpath / posterior / hyp / seg_iter on the decoder's lattice */
+            /* latbest [src]: lattice_bestpath / posterior / hyp / seg_iter on a lattice (default: the decoder's) */
+            int src = n > 1 ? atoi(w[1]) : -1;
             lattice_t *l; latlink_t *lk = NULL;
-            NEED_D;
-            l = decoder_lattice(D);
+            if (src < 0) { NEED_D; } else if (!SLOT_OK(src) || !LAT[src]) { RET("skip"); continue; }
+            l = lat_of(src);
             if (l) {
                 lk = lattice_bestpath(l, 1.0f / 20.0f);
                 if (lk) {
@@ -378,44 +619,104 @@ int main(int argc, char **argv)
                     lattice_posterior(l, 1.0f / 20.0f);
                     h = lattice_hyp(l, lk);
                     if (h) { volatile size_t q = strlen(h); (void)q; }
-                    for (s = lattice_seg_iter(l, lk); s; s = seg_iter_next(s)) touch_seg(s);
+                    if (src < 0 || (n > 2 && !strcmp(w[2], "seg")))
+                        for (s = lattice_seg_iter(l, lk); s; s = seg_iter_next(s)) touch_seg(s);
                 }
             }
             RET(l ? (lk ? "ptr" : "null") : "null");
+        } else if (!strcmp(w[0], "latprune") && n >= 3) {
+            /* latprune <src> <beam kind>: bestpath + posterior + posterior_prune, then the lattice is walked */
+            int src = atoi(w[1]); lattice_t *l; int32 beam, np = -1;
+            if (src < 0) { NEED_D; } else if (!SLOT_OK(src) || !LAT[src]) { RET("skip"); continue; }
+            l = lat_of(src);
+            if (l && lattice_bestpath(l, 1.0f / 20.0f)) {
+                lattice_posterior(l, 1.0f / 20.0f);
+                beam = !strcmp(w[2], "all") ? 1 : (!strcmp(w[2], "none") ? -2000000000
+                    : logmath_log(lattice_get_logmath(l), !strcmp(w[2], "half") ? 0.5 : 1e-3));
+                np = lattice_posterior_prune(l, beam);
+                touch_lat(l);
+            }
+            if (!l) RET("null"); else RET(np >= 0 ? "n=%d" : "null", np);
+        } else if (!strcmp(w[0], "lattrav") && n >= 4) {
+            /* lattrav <src> fwd|rev <max links>: traverse, abandoning after <max> links */
+            int src = atoi(w[1]), max = atoi(w[3]), cnt = 0; lattice_t *l; latlink_t *lk;
+            if (src < 0) { NEED_D; } else if (!SLOT_OK(src) || !LAT[src]) { RET("skip"); continue; }
+            l = lat_of(src);
+            if (!l) { RET("null"); continue; }
+            if (!strcmp(w[2], "fwd")) {
+                for (lk = lattice_traverse_edges(l, NULL, NULL); lk && cnt < max; lk = lattice_traverse_next(l, NULL)) { touch_link(l, lk); cnt++; }
+            } else {
+                for (lk = lattice_reverse_edges(l, NULL, NULL); lk && cnt < max; lk = lattice_reverse_next(l, NULL)) { touch_link(l, lk); cnt++; }
+            }
+            RET("n=%d", cnt);
         } else if (!strcmp(w[0], "latretain") && n >= 2) {
             int k = atoi(w[1]); lattice_t *l;
             NEED_D;
-            if (k < 0 || k >= NSLOT || LAT[k]) { RET("skip"); continue; }
+            if (!SLOT_OK(k) || LAT[k]) { RET("skip"); continue; }
             l = decoder_lattice(D);
             if (l) { LAT[k] = lattice_retain(l); RET("ptr"); } else RET("null");
         } else if (!strcmp(w[0], "latwalk") && n >= 2) {
             int k = atoi(w[1]);
-            if (k < 0 || k >= NSLOT || !LAT[k]) { RET("skip"); continue; }
+            if (!SLOT_OK(k) || !LAT[k]) { RET("skip"); continue; }
             touch_lat(LAT[k]); RET("void");
         } else if (!strcmp(w[0], "latfree") && n >= 2) {
             int k = atoi(w[1]);
-            if (k < 0 || k >= NSLOT || !LAT[k]) { RET("skip"); continue; }
+            if (!SLOT_OK(k) || !LAT[k]) { RET("skip"); continue; }
             lattice_free(LAT[k]); LAT[k] = NULL; RET("void");
+        } else if (!strcmp(w[0], "lnode") && n >= 3) {
+            /* lnode <dst> <src>: ps_latnode_iter on the decoder's lattice (-1) or a retained one */
+            int j = atoi(w[1]), src = atoi(w[2]); lattice_t *l;
+            if (src < 0) { NEED_D; } else if (!SLOT_OK(src) || !LAT[src]) { RET("skip"); continue; }
+            if (!SLOT_OK(j) || LN[j]) { RET("skip"); continue; }
+            l = lat_of(src);
+            if (!l) { RET("null lat=0"); continue; }
+            LN[j] = ps_latnode_iter(l); C->lndag[j] = l;
+            if (LN[j]) { touch_node(l, ps_latnode_iter_node(LN[j])); RET("ptr lat=1"); } else RET("null lat=1");
+        } else if (!strcmp(w[0], "lnodenext") && n >= 2) {
+            int k = atoi(w[1]);
+            if (!SLOT_OK(k) || !LN[k]) { RET("skip"); continue; }
+            LN[k] = ps_latnode_iter_next(LN[k]);
+            if (LN[k]) { touch_node(C->lndag[k], ps_latnode_iter_node(LN[k])); RET("ptr"); } else RET("null");
+        } else if (!strcmp(w[0], "lnodefree") && n >= 2) {
+            int k = atoi(w[1]);
+            if (!SLOT_OK(k) || !LN[k]) { RET("skip"); continue; }
+            ps_latnode_iter_free(LN[k]); LN[k] = NULL; RET("void");
+        } else if (!strcmp(w[0], "llink") && n >= 4) {
+            /* llink <dst> <node iterator slot> exits|entries */
+            int j = atoi(w[1]), k = atoi(w[2]);
+            if (!SLOT_OK(k) || !LN[k] || !SLOT_OK(j) || LL[j]) { RET("skip"); continue; }
+            LL[j] = !strcmp(w[3], "exits") ? ps_latnode_exits(ps_latnode_iter_node(LN[k])) : ps_latnode_entries(ps_latnode_iter_node(LN[k]));
+            C->lldag[j] = C->lndag[k];
+            if (LL[j]) { touch_link(C->lldag[j], ps_latlink_iter_link(LL[j])); RET("ptr"); } else RET("null");
+        } else if (!strcmp(w[0], "llinknext") && n >= 2) {
+            int k = atoi(w[1]);
+            if (!SLOT_OK(k) || !LL[k]) { RET("skip"); continue; }
+            LL[k] = ps_latlink_iter_next(LL[k]);
+            if (LL[k]) { touch_link(C->lldag[k], ps_latlink_iter_link(LL[k])); RET("ptr"); } else RET("null");
+        } else if (!strcmp(w[0], "llinkfree") && n >= 2) {
+            int k = atoi(w[1]);
+            if (!SLOT_OK(k) || !LL[k]) { RET("skip"); continue; }
+            ps_latlink_iter_free(LL[k]); LL[k] = NULL; RET("void");
         } else if (!strcmp(w[0], "align")) {
             alignment_t *a; int ru; NEED_D; ru = al_reuse(); a = decoder_alignment(D);
             RET(a ? "ptr ru=%d" : "null ru=%d", ru);
         } else if (!strcmp(w[0], "alretain") && n >= 2) {
             int k = atoi(w[1]); alignment_t *a;
             NEED_D;
-            if (k < 0 || k >= NSLOT || ALN[k]) { RET("skip"); continue; }
+            if (!SLOT_OK(k) || ALN[k]) { RET("skip"); continue; }
             { int ru = al_reuse();
             a = decoder_alignment(D);
             if (a) { ALN[k] = alignment_retain(a); RET("ptr ru=%d", ru); } else RET("null ru=%d", ru); }
         } else if (!strcmp(w[0], "alfree") && n >= 2) {
             int k = atoi(w[1]);
-            if (k < 0 || k >= NSLOT || !ALN[k]) { RET("skip"); continue; }
+            if (!SLOT_OK(k) || !ALN[k]) { RET("skip"); continue; }
             alignment_free(ALN[k]); ALN[k] = NULL; RET("void");
         } else if (!strcmp(w[0], "aliter") && n >= 4) {
             /* aliter <destination slot> <retained alignment slot | -1> words|phones|states */
             /* source -1 = the alignment owned by the decoder (decoder_alignment) */
             int j = atoi(w[1]), k = atoi(w[2]);
             alignment_t *a; int ru;
-            if (k < -1 || k >= NSLOT || (k >= 0 && !ALN[k]) || (k < 0 && !D) || j < 0 || j >= NSLOT || ALI[j]) { RET("skip"); continue; }
+            if (k < -1 || k >= NSLOT || (k >= 0 && !ALN[k]) || (k < 0 && !D) || !SLOT_OK(j) || ALI[j]) { RET("skip"); continue; }
             w[2] = w[3];
             ru = k >= 0 ? 0 : al_reuse();
             a = k >= 0 ? ALN[k] : decoder_alignment(D);
@@ -425,23 +726,23 @@ int main(int argc, char **argv)
             if (ALI[j]) { touch_ali(ALI[j]); RET("ptr al=1 ru=%d", ru); } else RET("null al=1 ru=%d", ru);
         } else if (!strcmp(w[0], "alinext") && n >= 2) {
             int k = atoi(w[1]);
-            if (k < 0 || k >= NSLOT || !ALI[k]) { RET("skip"); continue; }
+            if (!SLOT_OK(k) || !ALI[k]) { RET("skip"); continue; }
             ALI[k] = alignment_iter_next(ALI[k]);
             if (ALI[k]) { touch_ali(ALI[k]); RET("ptr"); } else RET("null");
         } else if (!strcmp(w[0], "alichild") && n >= 3) {
             /* alichild <destination slot> <parent slot> */
             int j = atoi(w[1]), k = atoi(w[2]);
-            if (k < 0 || k >= NSLOT || !ALI[k] || j < 0 || j >= NSLOT || ALI[j]) { RET("skip"); continue; }
+            if (!SLOT_OK(k) || !ALI[k] || !SLOT_OK(j) || ALI[j]) { RET("skip"); continue; }
             ALI[j] = alignment_iter_children(ALI[k]);
             if (ALI[j]) { touch_ali(ALI[j]); RET("ptr"); } else RET("null");
         } else if (!strcmp(w[0], "aligoto") && n >= 3) {
             int k = atoi(w[1]);
-            if (k < 0 || k >= NSLOT || !ALI[k]) { RET("skip"); continue; }
+            if (!SLOT_OK(k) || !ALI[k]) { RET("skip"); continue; }
             ALI[k] = alignment_iter_goto(ALI[k], atoi(w[2]));
             if (ALI[k]) { touch_ali(ALI[k]); RET("ptr"); } else RET("null");
         } else if (!strcmp(w[0], "alifree") && n >= 2) {
             int k = atoi(w[1]);
-            if (k < 0 || k >= NSLOT || !ALI[k]) { RET("skip"); continue; }
+            if (!SLOT_OK(k) || !ALI[k]) { RET("skip"); continue; }
             alignment_iter_free(ALI[k]); ALI[k] = NULL; RET("void");
         } else if (!strcmp(w[0], "json") && n >= 2) {
             const char *j; int ru; NEED_D;
@@ -472,14 +773,18 @@ int main(int argc, char **argv)
             r = decoder_set_jsgf_file(D, repo_path(2, !strcmp(w[1], "good") ? "tests/data/goforward.gram" : "tests/data/nonexistent.gram"));
             RET(r == 0 ? "ok" : "err");
         } else if (!strcmp(w[0], "fsg") && n >= 2) {
-            /* decoder_set_fsg consumes the model (also when it fails) */
-            fsg_model_t *f = NULL; int r; float lw;
+            /* fsg <kind> [other]: decoder_set_fsg consumes the model (also when it fails); with "other" the model
+             * is built with the log-math object of the OTHER decoder instance */
+            fsg_model_t *f = NULL; int r; float lw; logmath_t *lm;
+            inst_t *o = &I[C == &I[0] ? 1 : 0];
             NEED_D;
+            lm = decoder_logmath(D);
+            if (n > 2 && !strcmp(w[2], "other")) { if (!o->dec) { RET("skip"); continue; } lm = decoder_logmath(o->dec); }
             lw = (float)config_float(decoder_config(D), "lw");
-            if (!strcmp(w[1], "file")) f = fsg_model_readfile(repo_path(2, "tests/data/goforward.fsg"), decoder_logmath(D), lw);
+            if (!strcmp(w[1], "file")) f = fsg_model_readfile(repo_path(2, "tests/data/goforward.fsg"), lm, lw);
             else {
                 int a, b, c2;
-                f = fsg_model_init("h", decoder_logmath(D), lw, 3);
+                f = fsg_model_init("h", lm, lw, 3);
                 a = fsg_model_word_add(f, "go"); b = fsg_model_word_add(f, !strcmp(w[1], "oov") ? "zzyzxqq" : "forward");
                 fsg_model_trans_add(f, 0, 1, 0, a);
                 fsg_model_trans_add(f, 1, 2, 0, b);
@@ -506,27 +811,44 @@ int main(int argc, char **argv)
         } else if (!strcmp(w[0], "times")) {
             double a, b, c; NEED_D;
             decoder_utt_time(D, &a, &b, &c); decoder_all_time(D, &a, &b, &c);
-            (void)decoder_logmath(D); (void)decoder_fe(D); (void)decoder_feat(D);
+            (void)decoder_logmath(D); (void)decoder_fe(D); (void)decoder_feat(D); (void)decoder_config(D);
             RET("void");
         } else {
             RET("bad-op");
         }
     }
     /* release whatever the history still holds, as explicit calls */
+    for (ins = 0; ins < 2; ins++) {
+        char buf[64];
+        C = &I[ins];
+        for (i = 0; i < NSLOT; i++) {
+            if (SEG[i]) { sprintf(buf, "@%d segfree %d", ins, i); do_line(buf); }
+            if (HYP[i]) { sprintf(buf, "@%d hypfree %d", ins, i); do_line(buf); }
+            if (ALI[i]) { sprintf(buf, "@%d alifree %d", ins, i); do_line(buf); }
+            if (LN[i]) { sprintf(buf, "@%d lnodefree %d", ins, i); do_line(buf); }
+            if (LL[i]) { sprintf(buf, "@%d llinkfree %d", ins, i); do_line(buf); }
+        }
+        for (i = 0; i < NSLOT; i++) {
+            if (LAT[i]) { sprintf(buf, "@%d latfree %d", ins, i); do_line(buf); }
+            if (ALN[i]) { sprintf(buf, "@%d alfree %d", ins, i); do_line(buf); }
+        }
+    }
+    for (ins = 0; ins < 2; ins++) {
+        char buf[64];
+        C = &I[ins];
+        while (D) { sprintf(buf, "@%d free", ins); do_line(buf); }
+    }
+    C = &I[0];
     for (i = 0; i < NSLOT; i++) {
         char buf[64];
-        if (SEG[i]) { sprintf(buf, "segfree %d", i); do_line(buf); }
-        if (HYP[i]) { sprintf(buf, "hypfree %d", i); do_line(buf); }
-        if (ALI[i]) { sprintf(buf, "alifree %d", i); do_line(buf); }
+        if (CFG[i]) { sprintf(buf, "subfree cfg %d", i); do_line(buf); }
+        if (LM[i]) { sprintf(buf, "subfree lmath %d", i); do_line(buf); }
+        if (FE[i]) { sprintf(buf, "subfree fe %d", i); do_line(buf); }
+        if (FT[i]) { sprintf(buf, "subfree feat %d", i); do_line(buf); }
+        if (ML[i]) { sprintf(buf, "mllrfree %d", i); do_line(buf); }
     }
-    for (i = 0; i < NSLOT; i++) {
-        char buf[64];
-        if (LAT[i]) { sprintf(buf, "latfree %d", i); do_line(buf); }
-        if (ALN[i]) { sprintf(buf, "alfree %d", i); do_line(buf); }
-    }
-    while (D) do_line("free");
     free(goraw);
-    printf("> exit\n< void | D=0 it=0,0,0 lr=0 ar=0\n");
+    printf("> exit\n< void"); state();
     fflush(stdout);
     return 0;
 }
@@ -534,17 +856,28 @@ int main(int argc, char **argv)
 /* closing calls issued by the harness itself at end of input */
 static void do_line(char *line)
 {
-    char copy[64], *w[4];
+    char copy[64], *wb[5], **w = wb;
     int n, k;
     strcpy(copy, line);
-    n = vf_words(copy, w, 4);
-    k = n > 1 ? atoi(w[1]) : 0;
+    n = vf_words(copy, w, 5);
     printf("> %s\n", line); fflush(stdout);
+    if (w[0][0] == '@') { C = &I[w[0][1] == '1' ? 1 : 0]; w++; n--; }
+    k = n > 1 ? atoi(w[n - 1]) : 0;
     if (!strcmp(w[0], "segfree")) { seg_iter_free(SEG[k]); SEG[k] = NULL; printf("< void"); }
     else if (!strcmp(w[0], "hypfree")) { hyp_iter_free(HYP[k]); HYP[k] = NULL; printf("< void"); }
     else if (!strcmp(w[0], "alifree")) { alignment_iter_free(ALI[k]); ALI[k] = NULL; printf("< void"); }
+    else if (!strcmp(w[0], "lnodefree")) { ps_latnode_iter_free(LN[k]); LN[k] = NULL; printf("< void"); }
+    else if (!strcmp(w[0], "llinkfree")) { ps_latlink_iter_free(LL[k]); LL[k] = NULL; printf("< void"); }
     else if (!strcmp(w[0], "latfree")) { lattice_free(LAT[k]); LAT[k] = NULL; printf("< void"); }
     else if (!strcmp(w[0], "alfree")) { alignment_free(ALN[k]); ALN[k] = NULL; printf("< void"); }
+    else if (!strcmp(w[0], "mllrfree")) { mllr_free(ML[k]); ML[k] = NULL; printf("< void"); }
+    else if (!strcmp(w[0], "subfree")) {
+        if (!strcmp(w[1], "cfg")) { config_free(CFG[k]); CFG[k] = NULL; }
+        else if (!strcmp(w[1], "lmath")) { logmath_free(LM[k]); LM[k] = NULL; }
+        else if (!strcmp(w[1], "fe")) { fe_free(FE[k]); FE[k] = NULL; }
+        else { feat_free(FT[k]); FT[k] = NULL; }
+        printf("< void");
+    }
     else { int r = decoder_free(D); if (--Drefs == 0) D = NULL; printf("< rc=%d", r); }
     state();
 }
